@@ -53,38 +53,10 @@ def request(P, rule, kind, s, i):
     return lib.py_parse_all(P, rule, s)
 
 
-class _Abort(BaseException):
-    """raised from a trace function inside the library: an exception that is not ParseError (KeyboardInterrupt, a timeout
-    handler, RecursionError ...) unwinding a request half-way"""
-
-
 def aborted_request(P, rule, kind, s, i, n):
-    """runs the request but raises _Abort at the n-th function call made inside abnf/parser.py; returns True when the
-    request was really cut short"""
-    import sys
-    count = [0]
-    fname = P.__file__
-
-    def tracer(frame, event, arg):
-        if event == "call" and frame.f_code.co_filename == fname:
-            count[0] += 1
-            if count[0] == n:
-                raise _Abort()
-        return None
-
-    old = sys.gettrace()
-    oldhook = sys.unraisablehook
-    # an abort that lands in the finalisation of a generator is swallowed by the interpreter ("Exception ignored in"): quiet
-    sys.unraisablehook = lambda *a: None
-    sys.settrace(tracer)
-    try:
-        request(P, rule, kind, s, i)
-        return False
-    except _Abort:
-        return True
-    finally:
-        sys.settrace(old)
-        sys.unraisablehook = oldhook
+    """runs the request but raises a foreign exception at the n-th function call made inside abnf/parser.py; returns True
+    when the request was really cut short"""
+    return ec.abort_at_call(P, lambda: request(P, rule, kind, s, i), n)
 
 
 def qline(kind, s, i):
